@@ -261,8 +261,8 @@ def tlc_validate(ctx, batches):
             name = "trace_%d.ndjson" % i
             modname = "CesiumIterTrace_%d" % i
             try:
-                r = ctx.tlc(AREA, modname, "tv.cfg", workers=1, tag="tv_%d" % i, timeout=1500, heap="3g",
-                            files={name: "\n".join(lines) + "\n", "tv.cfg": TRACE_CFG,
+                r = ctx.tlc(AREA, modname, "tv_%d.cfg" % i, workers=1, tag="tv_%d" % i, timeout=1500, heap="3g",
+                            files={name: "\n".join(lines) + "\n", "tv_%d.cfg" % i: TRACE_CFG,
                                    modname + ".tla": mod.replace("MODULE CesiumIterTrace", "MODULE " + modname)
                                    .replace('"trace.ndjson"', '"%s"' % name)})
             except vlib.Inconclusive as e:
